@@ -17,10 +17,11 @@ ALIASES = {"→": ["->"], "⊕": ["+"], "⧺": ["~"], "⇌": ["vs", "<->"], "∨
 KEYS = ["K", "KEY_2", "a.b", "x-y", "Name", "STATUS", "RISKS", "TESTS", "Ünï", "k9", "_p", "ID", "PATTERN", "REGEX"]
 ALWAYS_QUOTE = ("PATTERN", "REGEX")
 WORDS = ["alpha", "Beta", "g_1", "x.y", "done", "ACTIVE", "pend-ing", "truex", "nullable", "vsx", "A1", "True", "NULL", "FALSE"]
-PLAIN_QUOTED = ["two words", "a,b", "x:y", "has \"q\"", "back\\slash", "tab\there", "nl\nline", "", "1abc", "true", "null", "vs",
+PLAIN_QUOTED = ["cr\rhere", "two words", "a,b", "x:y", "has \"q\"", "back\\slash", "tab\there", "nl\nline", "", "1abc", "true", "null", "vs",
                 "-dash", "é accent", "a→b c", "[br]", "# hash", "// not comment", "50%", "a=b", "(p)", "semi;colon", "$", "§ref x",
                 "//server/share", "//cdn.example.com/lib.js", "/usr/bin", "./src", "docs/readme.md", "a//b", "http://x/y", "1.0rc1", "2.5e-05x",
                 "a→true", "X@null", "Speed→vs", "A⊕false.x", "true.", "null-x", "vs.a", "NAME{q}", "x<y>", "a<>", "N<a,b>", "\\n", "end\\"]
+MW_EXTRA = ['"List<str>"', '"<docs>"', '"two words"', "42", '"1"', '"a→b"']
 COMMENTS = ["note", "TODO: x", "a // b", "ünï", "x::y", "-> arrow", "\"q\""]
 ZONE_LINES = ["plain", "  indented", "\ttab", "A::1", "===END===", "---", "``", "a -> b", "é́ nfd", "back\\slash \\n", "\"quoted\"",
               "x & y | z # w", "trailing  ", "", "// c", "[1,2", "true", "see \"x\" then \\textbf{important}", "// url http://h/p PKG{latest}",
@@ -32,8 +33,11 @@ TAGS = [None, "python", "json", "oct"]
 class Spelling:
     """Lenient choices; `canonical=True` makes every choice the canonical one."""
 
-    def __init__(self, rng: random.Random, canonical: bool = False, p: float = 0.5, only: set | None = None, envelope: bool = False):
+    def __init__(self, rng: random.Random, canonical: bool = False, p: float = 0.5, only: set | None = None, envelope: bool = False,
+                 extreme: bool = False):
         self.rng, self.canonical, self.p, self.only = rng, canonical, p, only
+        # extreme: EVERY applicable site takes a non-canonical option (the far corner of the spelling space)
+        self.extreme = extreme
         # may the envelope line of a document named INFERRED be left out?  A reader feature (C01/C02 exercise it); the tools treat
         # text without an envelope as plain text to wrap, so tool-level checks and C03's freedoms do not use it
         self.envelope = envelope
@@ -41,12 +45,12 @@ class Spelling:
     def flip(self, kind: str) -> bool:
         if self.canonical or (self.only is not None and kind not in self.only):
             return False
-        return self.rng.random() < self.p
+        return True if self.extreme else self.rng.random() < self.p
 
     def choice(self, kind: str, options):
         if self.canonical or (self.only is not None and kind not in self.only):
             return options[0]
-        return self.rng.choice(options)
+        return self.rng.choice(options[1:] if (self.extreme and len(options) > 1) else options)
 
 
 class Writer:
@@ -86,7 +90,9 @@ def gen_scalar(rng, allow_multi=True):
     if r < 0.40:
         return {"t": "qstr", "v": rng.choice(PLAIN_QUOTED)}
     if r < 0.50 and allow_multi:
-        return {"t": "words", "v": [rng.choice(WORDS) for _ in range(rng.randint(2, 3))]}
+        # a multi-word bare value: the first word is a plain word, later ones may be quoted words (kept WITH their quotes in the
+        # coalesced string) or numbers
+        return {"t": "words", "v": [rng.choice(WORDS)] + [rng.choice(WORDS + MW_EXTRA) for _ in range(rng.randint(1, 2))]}
     if r < 0.62:
         return {"t": "int", "v": rng.choice([0, 1, -1, 42, 10**12, -7, 2024])}
     if r < 0.68:
@@ -158,7 +164,7 @@ def gen_nodes(rng, depth, n, in_section=False, zones=True):
             v = gen_value(rng)
             if v["t"] == "zone" and not zones:
                 v = gen_scalar(rng)
-            trail = rng.choice(COMMENTS) if (rng.random() < 0.15 and v["t"] not in ("zone", "list")) else None
+            trail = rng.choice(COMMENTS) if (rng.random() < (0.3 if v["t"] == "list" else 0.15) and v["t"] != "zone") else None
             nodes.append({"t": "assign", "lead": lead, "k": key, "v": v, "trail": trail})
         elif r < 0.9:
             ch = gen_nodes(rng, depth + 1, rng.choice([0, 1, 1, 2, 3]), zones=zones)
@@ -327,7 +333,7 @@ def r_scalar(w: Writer, sp: Spelling, v, in_list=False):
             w.receipts.append(["multi_word_coalesce", list(v["v"]), " ".join(v["v"]), "", w.line, w.col])
             w.w((" " if not sp.canonical and sp.rng.random() < 0.3 else " ").join(v["v"]))
         else:
-            w.w('"' + " ".join(v["v"]) + '"')
+            w.w('"' + _escape(" ".join(v["v"])) + '"')
     elif t == "int":
         w.w(str(v["v"]))
     elif t == "float":
